@@ -209,10 +209,35 @@ def keyLamOk : Key → Bool → Bool
   | .spread e, _ => lamOk e
 end
 
+/-- a name at the start of a statement that `protect_statement_start` treats alike on every
+    layout: it is not spelled `via` / `into` / `where`, and does not itself start with one of
+    them followed by a blank (no name the parser builds does) -/
+def headNameOk (n : String) : Bool :=
+  !(n == "via" || n == "into" || n == "where") && !wordOperatorStart n.toList
+
+/-- THE LEFTMOST NAME OF THE PRINTED TEXT IS NOT `via` / `into` / `where`.  For a statement of a
+    do-block that starts with such a name `protect_statement_start` decides by the character
+    behind it: `via + b` is parenthesised on one line, and is not when the layout breaks the
+    line behind `via` (`via` ⏎ `+ b` cannot continue the line before it) — there the formatter
+    and the single-line printer differ by a pair of parentheses, not only in layout. -/
+def headSafe : Expr → Bool
+  | .ident n => headNameOk n
+  | .builtin n => headNameOk n
+  | .assign n _ => headNameOk n
+  | .bin op l _ => needsParens l (.binLeft op) || headSafe l
+  | .fact e => needsParens e .postfix_ || headSafe e
+  | .call e _ => needsParens e .postfix_ || headSafe e
+  | .access e _ => needsParens e .postfix_ || headSafe e
+  | .dot e _ => needsParens e .postfix_ || headSafe e
+  | .lambda args _ => (match args with | [.req n] => headNameOk n | _ => true)
+  | .num x => (match (numberToSource x).toList with | c :: _ => c != 'v' && c != 'i' && c != 'w' | [] => true)
+  | _ => true
+
 open Blots.Squash in
 mutual
 /-- no identifier-like string of the tree contains a quote character (every tree the parser
-    builds: identifiers, field names and parameters are `[A-Za-z_][A-Za-z0-9_]*`) -/
+    builds: identifiers, field names and parameters are `[A-Za-z_][A-Za-z0-9_]*`), and no
+    statement of a do-block starts with a name spelled `via` / `into` / `where` (`headSafe`) -/
 def namesOk : Expr → Bool
   | .ident n => nameOk n
   | .inref f => nameOk f
@@ -221,7 +246,7 @@ def namesOk : Expr → Bool
   | .record es => entriesNamesOk es
   | .lambda args b => (args.all fun a => nameOk a.name) && namesOk b
   | .cond c t e => namesOk c && (namesOk t && namesOk e)
-  | .doBlock ss r => itemsNamesOk ss && itemNamesOk r
+  | .doBlock ss r => stmtsNamesOk ss && itemNamesOk r
   | .assign n v => nameOk n && namesOk v
   | .output e => namesOk e
   | .call f as => namesOk f && exprsNamesOk as
@@ -243,6 +268,9 @@ def itemNamesOk : Item → Bool
 def itemsNamesOk : List Item → Bool
   | [] => true
   | i :: is => itemNamesOk i && itemsNamesOk is
+def stmtsNamesOk : List Item → Bool
+  | [] => true
+  | (.mk _ e _) :: is => (namesOk e && headSafe e) && stmtsNamesOk is
 def entryNamesOk : Entry → Bool
   | .mk _ k v _ => keyNamesOk k (namesOk v)
 def entriesNamesOk : List Entry → Bool
